@@ -53,6 +53,24 @@ func c17NoCommentConstructed(r *an.Run) {
 					if fa, ok := x.Addr.(*ssa.FieldAddr); ok && an.IsNamed(fa.X.Type(), "go/ast", "File") && fieldNameOf(fa) == "Comments" {
 						r.Fail(short(f)+"|File.Comments", x.Pos(), "%s rewrites File.Comments", short(f))
 					}
+					// an element of a comment-group list that was handed in (File.Comments seen through a parameter)
+					if ia, ok := x.Addr.(*ssa.IndexAddr); ok && isCommentGroupList(ia.X.Type()) {
+						if _, fresh := an.Root(ia.X).(*ssa.MakeSlice); !fresh {
+							r.Fail(short(f)+"|comment-list-element", x.Pos(), "%s overwrites an element of a list of comment groups it did not create", short(f))
+						}
+					}
+				case *ssa.Call:
+					// append into (a re-slice of) a list of comment groups that was handed in or is held by the
+					// file writes into the file's own backing array: groups get shifted and duplicated
+					if an.IsCallTo(x, "builtin:append") && isCommentGroupList(x.Type()) {
+						for _, o := range sliceOrigins(x.Call.Args[0]) {
+							switch o.(type) {
+							case *ssa.Const, *ssa.MakeSlice:
+								continue
+							}
+							r.Fail(short(f)+"|append-into-comment-list", x.Pos(), "%s appends to (a re-slice of) a list of comment groups it did not create (%s): with spare capacity this rewrites File.Comments in place — the caller keeps the old length, so trailing groups appear twice", short(f), an.Describe(o))
+						}
+					}
 				}
 			}
 		}
@@ -487,6 +505,48 @@ func c17IdentityUnchanged(r *an.Run) {
 		r.Check(good, short(f)+"|identity-arm", c.If.Pos(), "for an element the edit script marks Identity, walkSlice records the pair as unchanged (calls made in that arm: %v): its comments stay attached in the next snapshot", callees)
 	}
 	r.Check(found, short(f)+"|identity-case", f.Pos(), "walkSlice distinguishes the Identity edit")
+	// every edit of the script is dispatched: once the edit script is computed, the only way to a return leads
+	// through the loop over it, and that loop is left only when the script is exhausted. (A shortcut such as
+	// "no differences: return" skips the Identity arm, which is what carries the comments of untouched
+	// elements into the next snapshot — a later change of the same run then swallows them.)
+	var diffCall *ssa.Call
+	for _, c := range an.Calls(f) {
+		if sc := an.StaticCallee(c); sc != nil && strings.HasSuffix(short(sc), "internal/diff.Difference") {
+			diffCall, _ = c.(*ssa.Call)
+		}
+	}
+	if !r.Check(diffCall != nil, short(f)+"|edit-script", f.Pos(), "walkSlice computes an edit script with diff.Difference") {
+		return
+	}
+	var loop *an.Loop
+	for _, l := range an.Loops(f) {
+		if il := an.AsIndexLoop(l); il != nil {
+			if bc, ok := il.Bound.(*ssa.Call); ok && an.IsCallTo(bc, "builtin:len") && an.Unwrap(bc.Call.Args[0]) == ssa.Value(diffCall) {
+				loop = l
+			}
+		}
+	}
+	if !r.Check(loop != nil, short(f)+"|script-loop", diffCall.Pos(), "walkSlice iterates over the whole edit script") {
+		return
+	}
+	reach := an.ReachFromSuccs(diffCall.Block(), func(b *ssa.BasicBlock, i int) bool { return b.Succs[i] == loop.Header })
+	reach[diffCall.Block()] = true
+	early := false
+	for _, ret := range an.Returns(f) {
+		if reach[ret.Block()] && (ret.Block() != diffCall.Block() || an.InstrBlockIndex(ret) > an.InstrBlockIndex(diffCall)) {
+			early = true
+		}
+	}
+	r.Check(!early, short(f)+"|no-return-before-the-script-is-dispatched", diffCall.Pos(), "after the edit script is computed no return comes before the loop that dispatches it")
+	exits := 0
+	for b := range loop.Blocks {
+		for _, s := range b.Succs {
+			if !loop.Blocks[s] && b != loop.Header {
+				exits++
+			}
+		}
+	}
+	r.Check(exits == 0, short(f)+"|script-loop-runs-to-the-end", diffCall.Pos(), "the loop over the edit script is left only when the script is exhausted (%d other exit(s))", exits)
 }
 
 // intervalArg returns the index of the argument of call that is a struct with
@@ -508,4 +568,13 @@ func intervalArg(call *ssa.Call) int {
 		}
 	}
 	return -1
+}
+
+func isCommentGroupList(t types.Type) bool {
+	sl, ok := t.Underlying().(*types.Slice)
+	if !ok {
+		return false
+	}
+	p, ok := sl.Elem().Underlying().(*types.Pointer)
+	return ok && an.IsNamed(p.Elem(), "go/ast", "CommentGroup")
 }
